@@ -7,6 +7,7 @@ import (
 	"bytes"
 	"errors"
 	"fmt"
+	"strings"
 	"math"
 	"sort"
 	"testing"
@@ -1042,4 +1043,111 @@ func TestExhaustiveCodePoints(t *testing.T) {
 	}
 	vh.Bulk("text", evals, evals, classes, TextCase{Content: enc(0xfffd)})
 	vh.Exhaustive("text", "EncodeTextString of each of the 0x110000 code points (surrogate range = invalid UTF-8) alone and after an ASCII prefix: refused iff invalid, else exact bytes")
+}
+
+
+// ------------------------------------------------------------------------------- dense shape sweeps
+//
+// One dimension at a time, EVERY value 0..1100 and a few larger ones (the format has no limit
+// below 2^64 on any of them): items of an array, entries of a map (integer and text keys, supplied
+// in reversed and rotated caller order), top-level items encoded with ONE Encoder, octets of a
+// byte / text string, nesting depth. A fast path, batch size or inline buffer that an
+// implementation switches at SOME count or length is crossed whatever that number is, and the
+// n-th call on one Encoder object is made for every n. Judged by the tree check above.
+
+func shapeCase(shape string, n int) (TreeCase, bool) {
+	u := func(x int) *Node { return &Node{Kind: "uint", U: uint64(x)} }
+	perms := func(n int) ([]int, []int) {
+		a, b := make([]int, n), make([]int, n)
+		for i := 0; i < n; i++ {
+			a[i] = n - 1 - i
+			b[i] = (i + n/3) % n
+		}
+		return a, b
+	}
+	switch shape {
+	case "array-items":
+		nd := &Node{Kind: "array"}
+		for i := 0; i < n; i++ {
+			nd.Kids = append(nd.Kids, u(i))
+		}
+		return TreeCase{Items: []*Node{nd, u(7)}}, true
+	case "map-uint-keys", "map-text-keys":
+		nd := &Node{Kind: "map"}
+		for i := 0; i < n; i++ {
+			k := u(i * 3)
+			if shape == "map-text-keys" {
+				k = &Node{Kind: "text", S: vh.B(fmt.Sprintf("k%d", i))}
+			}
+			nd.Entries = append(nd.Entries, Entry{K: k, V: u(i % 24)})
+		}
+		nd.Perm1, nd.Perm2 = perms(n)
+		return TreeCase{Items: []*Node{nd, u(7)}}, true
+	case "top-level-items":
+		c := TreeCase{}
+		for i := 0; i < n+1; i++ {
+			if i%3 == 2 {
+				c.Items = append(c.Items, &Node{Kind: "text", S: vh.B("s")})
+			} else {
+				c.Items = append(c.Items, u(i))
+			}
+		}
+		return c, true
+	case "bytes-octets", "text-octets":
+		k := "bytes"
+		if shape == "text-octets" {
+			k = "text"
+		}
+		return TreeCase{Items: []*Node{{Kind: k, S: vh.B(bytes.Repeat([]byte{'a' + byte(n%26)}, n))}, u(7)}}, true
+	case "nesting-depth":
+		nd := u(1)
+		for i := 0; i < n; i++ {
+			if i%2 == 0 {
+				nd = &Node{Kind: "array", Kids: []*Node{nd}}
+			} else {
+				nd = &Node{Kind: "map", Entries: []Entry{{K: u(0), V: nd}}, Perm1: []int{0}, Perm2: []int{0}}
+			}
+		}
+		return TreeCase{Items: []*Node{nd}}, true
+	}
+	return TreeCase{}, false
+}
+
+type ShapeCase struct {
+	Shape string `json:"shape"`
+	N     int    `json:"n"`
+}
+
+var shapeProp = vh.Define("C11", "shape-sweep", func(c ShapeCase, r *vh.R) {
+	tc, ok := shapeCase(c.Shape, c.N)
+	if !ok || c.N < 0 || c.N > 200000 {
+		r.Skip = true
+		return
+	}
+	r.Class("shape:" + c.Shape)
+	sub := &vh.R{}
+	treeProp.Check(tc, sub)
+	r.V = sub.V
+	r.NT()
+})
+
+func TestShapeSweep(t *testing.T) {
+	var ns []int
+	for n := 0; n <= 1100; n++ {
+		ns = append(ns, n)
+	}
+	big := []int{1500, 2048, 4095, 4096, 4097, 10000, 65535, 65536, 65537, 100000}
+	cnt := 0
+	for _, sh := range []string{"array-items", "map-uint-keys", "map-text-keys", "top-level-items", "bytes-octets", "text-octets", "nesting-depth"} {
+		for _, n := range append(append([]int{}, ns...), big...) {
+			if n > 10000 && (strings.HasPrefix(sh, "map-") || sh == "nesting-depth") {
+				continue
+			}
+			cnt++
+			if !shapeProp.One(t, ShapeCase{Shape: sh, N: n}) {
+				return
+			}
+		}
+	}
+	vh.Exhaustive("shape-sweep", fmt.Sprintf("7 shapes (array items, map entries with integer / text keys in two caller orders, top-level items on one Encoder, byte / text string octets, nesting depth) x every n in 0..1100 and up to 10 larger values: %d cases", cnt))
 }
